@@ -215,6 +215,7 @@ def run(ctx):
     rnd = ctx.rng
     lines, cases = [], []
     _iterator_contexts(res)
+    _nested_programs(res)
     # ---- (1) escaping canaries + (4) context snapshots -------------------------------------------------
     n = ctx.n(600, 10000)
     for i in range(n):
@@ -417,6 +418,55 @@ def _iterator_contexts(res):
             if 'tal:repeat="y lst"' not in shape and outs.get("iterator") is not None and outs.get("list") is not None and outs["iterator"] != outs["list"]:
                 res.violation("C18:iterator-differs-from-list", "a repeat over an iterator gives another document than a repeat over the list of its items",
                               {"template": tpl, "value": label}, observed=outs["iterator"][:300], required=outs["list"][:300], replay={"kind": "iterator", "template": tpl, "value": label})
+
+
+def _nested_programs(res):
+    """Templates that run another compiled program on the same interpreter (a macro use, a `structure` include of a compiled
+    template): afterwards the caller's context is as it was (the built-in `attrs` too), and a value that is *data* where a macro
+    was expected never reaches the output as markup."""
+    lib_src = '<div metal:define-macro="box" class="box"><span metal:define-slot="body">default</span></div><p metal:define-macro="row" id="r">row</p>'
+    part_src = '<em class="part" tal:content="s">part</em>'
+    pages = ['<p id="use" metal:use-macro="lib/macros/box"><b metal:fill-slot="body" tal:content="s">f</b></p><i tal:content="n">n</i>',
+             '<div id="inc" class="c" tal:content="structure part">x</div><p tal:define="v s" tal:content="v">v</p>',
+             '<ul><li tal:repeat="x lst" class="li"><span metal:use-macro="lib/macros/row">r</span><u tal:replace="structure part">p</u></li></ul>',
+             # a macro expression that denotes data, not a macro
+             '<span id="m" metal:use-macro="s">fallback</span>', '<ul><li tal:repeat="x lst"><span metal:use-macro="x">item</span></li></ul>',
+             '<span metal:use-macro="lib/macros/nosuch | s">fallback</span>']
+    payload = '<img src=x onerror=alert(1)>&"\''
+    for page in pages:
+        try:
+            lib, _ = talgen.real_compile(lib_src)
+            part, _ = talgen.real_compile(part_src)
+            t, _p = talgen.real_compile(page)
+            c = simpleTALES.Context(allowPythonPath=0)
+            g = talgen.ctxvals()
+            g["s"] = payload
+            g["lst"] = ["a", payload, "c"]
+            for k, v in g.items():
+                c.addGlobal(k, v)
+            c.addGlobal("lib", lib)
+            c.addGlobal("part", part)
+            pre = _snapshot(c)
+            o = talgen.Sink()
+            with talgen.time_limit():
+                t.expand(c, o)
+            post = _snapshot(c)
+            for snap_ in (pre, post):
+                for k_ in ("lib", "part"):          # (compiled templates have no equality of their own)
+                    snap_["globals"].pop(k_, None)
+            out = o.getvalue()
+        except Exception as e:  # noqa
+            res.count("nested-program-raises:" + type(e).__name__)
+            continue
+        res.evaluations += 1
+        res.nontrivial.add(("nested-program", page))
+        if post != pre:
+            part_ = next(k for k in pre if pre[k] != post[k])
+            res.violation("C18:context-leftover:" + part_, "the caller's context is not restored after a template that ran a nested program (macro use / structure include)",
+                          {"template": page}, observed={part_: repr(post[part_])[:200]}, required={part_: repr(pre[part_])[:200]}, replay={"kind": "nested", "template": page})
+        if "<img" in out or "onerror=alert(1)>" in out:
+            res.violation("C18:data-became-markup:nested", "context data reached the output as markup through a macro expression", {"template": page},
+                          observed=out[:300], required="escaped text or nothing", replay={"kind": "nested", "template": page})
 
 
 def _snapshot_noiter(c):
